@@ -1162,6 +1162,10 @@ func (db *DB) flushMemtable(lc *z.Closer) {
 			// TODO: This logic is dirty AF. Any change and this could easily break.
 			y.AssertTrue(mt == db.imm[0])
 			db.imm = db.imm[1:]
+			// The table is durable: the WAL is no longer needed, whether or not an iterator still
+			// holds the skiplist. Left on disk it would be replayed after a crash, and bring back
+			// keys that a DropPrefix has removed from the levels in the meantime.
+			mt.deleteWAL()
 			mt.DecrRef() // Return memory.
 			// unlock
 			db.lock.Unlock()
@@ -1801,8 +1805,10 @@ func (db *DB) dropAll() (func(), error) {
 	db.opt.Infof("Deleted %d SSTables. Now deleting value logs...\n", num)
 
 	// Remove inmemory tables. Calling DecrRef for safety. Not sure if they're absolutely needed.
+	db.mt.deleteWAL()
 	db.mt.DecrRef()
 	for _, mt := range db.imm {
+		mt.deleteWAL()
 		mt.DecrRef()
 	}
 	db.imm = db.imm[:0]
@@ -1870,6 +1876,9 @@ func (db *DB) DropPrefix(prefixes ...[]byte) error {
 			db.opt.Errorf("While trying to flush memtable: %v", err)
 			return err
 		}
+		// The WAL still holds the dropped keys. It must go now, not when the last iterator over this
+		// memtable is closed: replayed after a crash it would bring the dropped keys back.
+		memtable.deleteWAL()
 		memtable.DecrRef()
 	}
 	db.stopCompactions()
